@@ -15,6 +15,7 @@ mod polyops;
 mod c01;
 mod c02;
 mod c11;
+mod c05;
 mod c14;
 mod c13;
 mod c04;
@@ -39,6 +40,7 @@ fn table(prop: &str) -> Option<(GenFn, RunFn)> {
         "C01" => Some((c01::generate, c01::run)),
         "C02" => Some((c02::generate, c02::run)),
         "C11" => Some((c11::generate, c11::run)),
+        "C05" => Some((c05::generate, c05::run)),
         "C14" => Some((c14::generate, c14::run)),
         "C13" => Some((c13::generate, c13::run)),
         "C04" => Some((c04::generate, c04::run)),
